@@ -328,9 +328,10 @@ def tolist(v):
 
 class Prop:
     ID = "C09"
-    LEVEL = "exploration"
-    COQ_HEADER = ""
-    CHECK_FN = ""
+    LEVEL = "proof"
+    COQ_HEADER = "From TN Require Import Harness.H_C09.\nFrom Coq Require Import QArith.\n"
+    CHECK_FN = "check"
+    SHARD = 25
     RULE = ("tensors: enumerated format lattice ({TT,CP}x{U,no U} per mode) for N=2 (all 16) and N=3 (all 64 in thorough, "
             "sampled in quick), seeded for N=4,5, sizes 2..4 (2..5 in thorough), ranks 1..3 (rank > size occurs), zero and "
             "constant tensors (degenerate: only the no-mutation clause is checked); masks: every single variable, "
@@ -351,7 +352,8 @@ class Prop:
                    "dependence cancels (e.g. only(weight_mask(4,[1,3]) ^ x0)) logic.relevant_symbols misjudges relevance "
                    "by rounding (norm ~1e-8 against a 1e-10 threshold) - a logic.py robustness defect outside this property",
                    "marginals are torch vectors (NumPy arrays are rejected by the implementation with TypeError)"]
-    THEOREMS = []
+    THEOREMS = ["C09_sobol_parts", "C09_extended_is_anova", "C09_parseval", "C09_total_variance", "C09_num_by_subsets",
+                "C09_den_by_subsets", "C09_additive", "C09_any_is_total"]
 
     # ------------------------------------------------------------------ generation
     def generate(self, rng, tier):
@@ -645,4 +647,37 @@ class Prop:
                                          t["mkind"], case.get("order"), case.get("normalize"))
 
     def coq_term(self, case, res):
-        return None
+        """tn.sobol with a scalar-valued mask: the model (Model/Sobol.v) is run on the same tensor, the mask tensor the
+        implementation was given (as built by tntorch) and the exactly normalised marginals"""
+        from fractions import Fraction
+        if case["op"] != "sobol" or not res.get("ok") or case.get("mask") is None:
+            return None
+        v = res.get("value")
+        if not isinstance(v, float) or not np.isfinite(v):
+            return None
+        if self.expected(case).get("degenerate"):       # zero variance on the support of the marginals: 0/0
+            return None
+        tj = case["t"]; N = len(tj["modes"])
+        try:
+            m = build_mask(case["mask"], N)
+        except Exception:
+            return None
+        if m.batch or m.dim() != N or any(int(x) != 2 for x in m.shape) or m.cores[-1].shape[-1] != 1 or m.cores[0].shape[0] != 1 \
+                or max(max(c.shape) for c in m.cores) > 8:
+            return None
+        shape = tshape(tj)
+        qx = lambda x: qlit(Fraction(float(x)))
+        ws = []
+        for n in range(N):
+            mg = None if case["marginals"] is None else case["marginals"][n]
+            if mg is None:
+                w = [Fraction(1, shape[n])] * shape[n]
+            else:
+                fr = [Fraction(float(x)) for x in mg]
+                tot = sum(fr)
+                if tot == 0:
+                    return None
+                w = [x / tot for x in fr]
+            ws.append("[" + ";".join(qlit(x) for x in w) + "]%Q")
+        return "mkCase %s [%s] %s %s %s" % (coq_tensor(tj, qx, "Q"), "; ".join(ws), coq_tensor(from_tn(m), qx, "Q"),
+                                           "true" if case.get("normalize", True) else "false", qx(v))
